@@ -1,0 +1,14 @@
+//go:build verif
+
+package consensus
+
+import (
+	sm "github.com/tendermint/tendermint/state"
+)
+
+// VerifPruneBlocks runs the unexported pruning glue State.pruneBlocks (block store first, then
+// the state store from the old base) on the given stores. Verification hook for property C18.
+func VerifPruneBlocks(blockStore sm.BlockStore, blockExec *sm.BlockExecutor, retainHeight int64) (uint64, error) {
+	cs := &State{blockStore: blockStore, blockExec: blockExec}
+	return cs.pruneBlocks(retainHeight)
+}
